@@ -1,6 +1,7 @@
 // lane N suite appended to src/callbacks/balances.rs   (C08)
 
-/// C08 (bounded: 3 random histories x 4 ranges): one row per address owning an unspent output, balance = exact sum
+/// C08 (bounded: 3 random histories x 4 ranges; one transaction with 65 800 outputs, addresses at the indices around 2^8 and
+/// 2^16): one row per address owning an unspent output, balance = exact sum
 #[test]
 fn c08_balances_match_reference() {
     let suite = "c08_balances_match_reference";
